@@ -404,35 +404,21 @@ def run(prog: Program, rep, tier: str) -> None:
 
 
 def veto(prog: Program, rep, rule: str) -> None:
-    """In Solver.solve the acceptance block is guarded by the *post-veto* accept:
-    accept is re-assigned from penalty_result.accept under `if accept`, and the block that
-    adopts next_iterate tests accept again afterwards."""
-    fi = prog.func("pygradflow.solver.Solver.solve")
-    ff = facts_for(fi)
-    adopt = [s for s in ff.order if isinstance(s.stmt, ast.Assign) and len(s.stmt.targets) == 1 and U(s.stmt.targets[0]) == "iterate"
-             and s.loops]
+    """In Solver.solve the block that adopts the candidate is guarded by the *post-veto* acceptance: the penalty policy is
+    consulted only for steps the controller accepted, and the carried iterate is replaced only if the policy accepted too."""
+    from .solveloop import solve_loop
+    L = solve_loop(prog)
+    fi, ff = L.fi, L.ff
+    name = L.names()["iterate"]
+    adopt = L.stores_in_loop(name)
     if not adopt:
-        raise AnalysisError("Solver.solve: no `iterate = ...` inside the main loop")
+        raise AnalysisError("Solver.solve: the carried iterate is never replaced inside the main loop")
     for s in adopt:
-        ok = False
-        for f in s.facts:
-            if f[0] != "truthy":
-                continue
-            try:
-                e = ast.parse(f[1], mode="eval").body
-            except SyntaxError:
-                continue
-            alts = phi_alternatives(e)
-            kinds = set()
-            for a in alts:
-                if isinstance(a, ast.Attribute) and a.attr == "accept" and isinstance(a.value, ast.Call) and isinstance(a.value.func, ast.Attribute) \
-                        and a.value.func.attr == "update" and "penalty_strategy" in U(a.value.func.value):
-                    kinds.add("penalty")
-                elif isinstance(a, ast.Attribute) and a.attr == "accepted" and isinstance(a.value, ast.Call) and U(a.value.func).endswith("_compute_step"):
-                    kinds.add("controller")
-                else:
-                    kinds.add("other")
-            if "penalty" in kinds and "other" not in kinds:
-                ok = True
-        rep.check(ok, rule, fi.qualname, short(s.stmt),
+        rep.check(L.post_veto_fact(s), rule, fi.qualname, short(s.stmt),
                   "the iterate is replaced only under the post-veto acceptance flag (controller accepted AND penalty policy accepted)", fi.loc(s.stmt))
+    # the policy is asked only about steps the controller accepted (so its verdict implies the controller's)
+    ups = [n for n in ast.walk(L.loop) if isinstance(n, ast.Call) and isinstance(n.func, ast.Attribute) and n.func.attr == "update" and "penalty_strategy" in U(n.func.value)]
+    for u_ in ups:
+        si = L.si(u_)
+        kinds, _ = L.accept_kinds(si)
+        rep.check("controller" in kinds, rule, fi.qualname, short(si.stmt), "the penalty policy is consulted only for steps the step controller accepted", fi.loc(u_))
